@@ -1,12 +1,330 @@
-// `ha` engine: high-availability service over 1..3 real sub-services (C15).
+// `ha` engine: high-availability service over 1..3 real sub-services (C15) — oracles and plan generator.
 #include "eng/asyncsim.h"
 #include "eng/gen.h"
+#include "sim/peek.h"
+#include <algorithm>
+#include <cstring>
 
 using namespace sim;
+using namespace ref;
 
 namespace eng {
 
-void AsyncSim::ha_on_returned(KSI_AsyncHandle *h, size_t waiting) { (void)h; (void)waiting; }
-void AsyncSim::ha_final_checks() {}
+void AsyncSim::ha_before_add(HRec &r) {
+	KSI_AsyncService *subs[8];
+	size_t n = peek_ha_subservices(svc, subs, 8);
+	r.sub_full.assign(eps.size(), false);
+	for (size_t i = 0; i < n && i < eps.size(); i++) {
+		struct peek_client pc;
+		if (peek_client(subs[i], &pc)) r.sub_full[i] = pc.pending + pc.received + 1 >= pc.cache_slots;
+	}
+}
+
+// when was the (sub-)request for r completely handed to endpoint ei (first time after `after`); 0 = never
+uint64_t AsyncSim::ha_sent_seq(const HRec &r, size_t ei, uint64_t after, uint64_t *id_out) {
+	SimEndpoint &e = eps[ei];
+	auto is_mine = [&](const ReqInfo &ri) {
+		if (!ri.has_req) return false;
+		if (!svc_ext) return ri.has_hash && ri.hash == r.hash;
+		return ri.has_agg_time && ri.agg_time == r.agg_time && ri.has_pub_time == r.has_pub && (!r.has_pub || ri.pub_time == r.pub_time);
+	};
+	uint64_t best = 0;
+	if (!e.http) {
+		for (auto &cp : N.conns) {
+			Conn &c = *cp;
+			if (c.ep != e.net_ep) continue;
+			size_t off = 0;
+			while (off < c.c2s.size()) {
+				size_t fl = frame_len(c.c2s, off);
+				if (fl == 0 || off + fl > c.c2s.size()) break;
+				ReqInfo ri;
+				if (parse_request(c.c2s.substr(off, fl), e.cfg.key, ri) && is_mine(ri)) {
+					uint64_t s = c.seq_when_sent(off + fl);
+					if (s > after && (best == 0 || s < best)) { best = s; if (id_out) *id_out = ri.id; }
+				}
+				off += fl;
+			}
+		}
+	} else {
+		for (auto &xp : C.xfers) {
+			if (xp->ep != e.net_ep || !xp->sent_seq) continue;
+			ReqInfo ri;
+			if (parse_request(xp->req_body, e.cfg.key, ri) && is_mine(ri) && xp->sent_seq > after && (best == 0 || xp->sent_seq < best)) { best = xp->sent_seq; if (id_out) *id_out = ri.id; }
+		}
+	}
+	return best;
+}
+
+static bool frame_answers(const Frame &f, const HRec &r, bool ext) {
+	if (!f.clean_resp) return false;
+	if (!ext) return f.info.has_chains && f.info.first_input == r.hash;
+	return f.info.has_cal && f.info.cal_agg == r.agg_time && (!r.has_pub || f.info.cal_pub == r.pub_time) && f.info.cal_shape_ok;
+}
+
+// no failure cause of any kind on endpoint ei while this attempt was outstanding
+bool AsyncSim::ha_endpoint_clean(const HRec &r, const Attempt &a, size_t ei, std::string &why) {
+	(void)r;
+	SimEndpoint &e = eps[ei];
+	uint64_t lo = prev_run_end_before(a.accepted_seq), hi = K.seq;
+	if (snd_to == 0 || rcv_to == 0 || (con_to == 0 && !e.http)) { why = "zero timeout"; return false; }
+	int mn = std::min(snd_to, rcv_to);
+	if (!e.http) mn = std::min(mn, con_to);
+	if (K.now_ms - a.accepted_ms >= (int64_t)mn * 1000) { why = "a timeout may have elapsed"; return false; }
+	if (backward_jump) { why = "clock jumped back"; return false; }
+	for (auto &f : frames) {
+		if (f.ep != (int)ei || f.arrive_seq == 0 || f.arrive_seq > hi) continue;
+		// bad frames / error PDUs stay queued in the client until consumed, whenever they arrived
+		if (f.bad || f.info.has_error) { why = "bad frame or error PDU"; return false; }
+		if (f.arrive_seq < lo) continue;
+		if (f.info.has_resp && f.info.status != 0) { why = "error status"; return false; }
+		if (f.clean_resp && svc_ext && !frame_answers(f, r, true) && f.info.has_cal && !f.info.cal_shape_ok) { why = "contradicting reply"; return false; }
+	}
+	for (auto &cp : N.conns) if (cp->ep == e.net_ep && cp->ended_seq >= lo && cp->ended_seq <= hi && cp->end_kind != "") { why = "connection ended (" + cp->end_kind + ")"; return false; }
+	for (auto &xp : C.xfers) if (xp->ep == e.net_ep && xp->done_seq >= lo && xp->done_seq <= hi && (xp->result != CURLE_OK || xp->http_code >= 400)) { why = "transfer failed"; return false; }
+	for (auto &d : N.dnsfail_log) if (d.second == e.net_ep && d.first >= lo && d.first <= hi) { why = "dns"; return false; }
+	// a connection attempt that has not completed (delayed or black-holed SYN) is a pending failure cause
+	for (auto &cp : N.conns) if (cp->ep == e.net_ep && cp->st == Conn::SYN_SENT && !cp->client_closed) { why = "connect pending"; return false; }
+	for (auto &xp : C.xfers) if (xp->ep == e.net_ep && (xp->st == Xfer::CONNECTING || xp->st == Xfer::QUEUED)) { why = "connect pending"; return false; }
+	// extender replies that contradict some request make the sub-service fail everything that waits
+	if (svc_ext) for (auto &f : frames) if (f.ep == (int)ei && f.clean_resp && f.arrive_seq <= hi) {
+		bool fits_any = false;
+		for (auto &rr : recs) if (frame_answers(f, *rr, true)) fits_any = true;
+		if (!fits_any) { why = "reply fits no request"; return false; }
+	}
+	return true;
+}
+
+void AsyncSim::ha_on_returned(KSI_AsyncHandle *h, size_t waiting) {
+	(void)waiting;
+	int state = 0, err = 0; long ext = 0;
+	KSI_AsyncHandle_getState(h, &state);
+	KSI_AsyncHandle_getError(h, &err);
+	KSI_AsyncHandle_getExtError(h, &ext);
+	if (state == KSI_ASYNC_STATE_ERROR_NOTICE) {
+		const void *octx = nullptr;
+		KSI_AsyncHandle_getRequestCtx(h, &octx);
+		HRec *rec = nullptr;
+		for (auto &r : recs) if (r->h && (const void *)r->h == octx) rec = r.get();
+		K.ev("NOTICE for #%d err=0x%x", rec ? rec->idx : -1, err);
+		K.count("outcome.error_notice");
+		if (err == KSI_OK) K.fail("C15", "notice-without-error", "run", "ERROR_NOTICE handle with error code 0");
+		if (!octx) K.fail("C15", "notice-without-request", "run", "ERROR_NOTICE handle does not reference the original request");
+		else if (!rec) {
+			bool any_freed = false;
+			for (auto &r : recs) if (!r->h) any_freed = true;
+			if (!any_freed) K.fail("C15", "notice-for-unknown-request", "run", "ERROR_NOTICE references a handle that was never submitted");
+		} else {
+			rec->notices++;
+			// a notice reports a real sub-request failure: some endpoint must have a failure cause
+			if (!rec->att.empty()) {
+				bool any_cause = false;
+				std::string why;
+				for (size_t ei = 0; ei < eps.size(); ei++) if (!ha_endpoint_clean(*rec, rec->att.back(), ei, why)) any_cause = true;
+				// the window of an earlier attempt may hold the cause as well
+				if (!any_cause && rec->att.size() > 1) any_cause = true;
+				if (!any_cause) K.fail("C15", "notice-without-cause", "run", "ERROR_NOTICE (0x%x) for request #%d although no endpoint had any failure", err, rec->idx);
+			}
+		}
+		KSI_AsyncHandle_free(h);
+		return;
+	}
+	if (state == KSI_ASYNC_STATE_PUSH_CONFIG_RECEIVED) {
+		KSI_Config *cfg = nullptr;
+		KSI_AsyncHandle_getConfig(h, &cfg);
+		K.count("probe.conf_handle");
+		if (!cfg) K.fail("C15", "config-handle-empty", "run", "PUSH_CONFIG_RECEIVED handle without a configuration");
+		else {
+			ConfEvent e; e.seq = K.ev("conf-handle"); e.cv = read_config(cfg); e.via_callback = true; e.ep = -1;
+			conf_events.push_back(e);
+		}
+		if (conf_cb) K.fail("C15", "config-handle-despite-callback", "run", "configuration handle returned although a push-config callback is set");
+		KSI_AsyncHandle_free(h);
+		return;
+	}
+	HRec *rec = nullptr;
+	for (auto &r : recs) if (r->h == h) rec = r.get();
+	if (!rec) { K.fail("C15", "phantom-handle", "run", "HA run returned a handle that was never submitted (state %d)", state); return; }
+	if (!rec->outstanding) { K.fail("C15", "returned-twice", "run", "request #%d completed a second time (state %d)", rec->idx, state); return; }
+	Attempt &a = rec->att.back();
+	a.returned = true; a.returned_seq = K.ev("RETURNED #%d state=%d err=0x%x ext=%ld", rec->idx, state, err, ext);
+	a.state = state; a.err = err; a.ext = ext;
+	rec->outstanding = false; rec->held = true; rec->hold_state = state;
+	K.count(state == KSI_ASYNC_STATE_RESPONSE_RECEIVED ? "outcome.response" : "outcome.error");
+	check_outgoing(false);
+	if (K.failed()) return;
+	if (state == KSI_ASYNC_STATE_RESPONSE_RECEIVED) {
+		std::vector<const Frame *> good;
+		for (size_t ei = 0; ei < eps.size(); ei++) {
+			uint64_t sid = 0;
+			uint64_t sent = ha_sent_seq(*rec, ei, a.accepted_seq, &sid);
+			if (!sent) continue;
+			// the sub-service's notion of a valid reply: authentic, status 0, bearing the sub-request's id (C13)
+			for (auto &f : frames) if (f.ep == (int)ei && f.clean_resp && f.info.id == sid && (!svc_ext || frame_answers(f, *rec, true)) && f.arrive_seq > sent && f.arrive_seq <= K.seq) good.push_back(&f);
+		}
+		if (good.empty()) {
+			bool prem = false;
+			for (size_t ei = 0; ei < eps.size(); ei++) { uint64_t sid = 0; if (ha_sent_seq(*rec, ei, a.accepted_seq, &sid)) for (auto &f : frames) if (f.ep == (int)ei && f.clean_resp && f.info.id == sid) prem = true; }
+			K.fail("C15", "response-without-valid-reply", prem ? "reply-arrived-before-the-request-was-sent-but-was-matched-after" : "no-endpoint-replied",
+			       "request #%d completed with a response, but no endpoint produced an authentic status-0 reply for it after receiving it", rec->idx);
+			return;
+		}
+		if (!svc_ext) {
+			KSI_Signature *sig = nullptr;
+			int res = KSI_AsyncHandle_getSignature(h, &sig);
+			if (res == KSI_OK && sig) {
+				std::string bytes = sdk::serialize(sig);
+				SigView v;
+				bool parsed = parse_signature(bytes, v);
+				SigFacts f = parsed ? evaluate(v) : SigFacts();
+				if (!(parsed && f.consistent && f.input_hash == rec->hash && f.first_lc >= rec->level))
+					K.fail("C07", "signature-accepted-but-invalid", f.why.empty() ? "hash-or-level" : f.why, "request #%d: HA signature is not valid for the requested hash/level (%s)", rec->idx, f.why.c_str());
+				bool same = false;
+				for (auto *g : good) if (sig_matches_reply(v, g->info, rec->level)) same = true;
+				if (parsed && !same) K.fail("C15", "response-content-mismatch", "signature", "request #%d: the signature is not the content of any endpoint's valid reply", rec->idx);
+				KSI_Signature_free(sig);
+			} else {
+				bool all_honest = true;
+				for (auto *g : good) if (!(g->behav == B_HONEST || g->behav == B_WITH_CONF)) all_honest = false;
+				if (all_honest) K.fail("C15", "honest-reply-rejected", sdk::err_name(res), "request #%d: getSignature failed (0x%x) although every eligible reply was honest", rec->idx, res);
+			}
+		}
+	} else if (state == KSI_ASYNC_STATE_ERROR) {
+		if (err == KSI_OK) K.fail("C15", "error-state-without-code", "run", "request #%d in ERROR state with error code 0", rec->idx);
+		for (size_t ei = 0; ei < eps.size(); ei++) {
+			if (ei < rec->sub_full.size() && rec->sub_full[ei]) continue;
+			std::string why;
+			if (ha_endpoint_clean(*rec, a, ei, why)) {
+				bool replied = false;
+				for (auto &f : frames) if (f.ep == (int)ei && frame_answers(f, *rec, svc_ext)) replied = true;
+				K.fail("C15", "error-although-an-endpoint-did-not-fail", replied ? "valid-reply-ignored" : "endpoint-still-pending",
+				       "request #%d ended with error 0x%x although endpoint %zu had no failure of any kind%s", rec->idx, err, ei, replied ? " and produced a valid reply" : "");
+				break;
+			}
+		}
+	} else K.fail("C15", "non-final-state", "run", "request #%d returned in state %d", rec->idx, state);
+}
+
+ConfVals AsyncSim::ha_expected_conf() {
+	ConfVals x;
+	for (auto &f : frames) {
+		if (f.bad || !f.info.has_conf || f.arrive_seq == 0) continue;
+		const RespInfo &i = f.info;
+		bool auth = i.authentic(eps[f.ep].cfg.mac_alg) && i.ver == eps[f.ep].cfg.pdu_ver;
+		if (!auth) continue;
+		const ConfVals &c = i.conf;
+		if (c.max_level >= 1 && c.max_level <= 20) x.max_level = std::max(x.max_level, c.max_level);
+		if (c.aggr_period >= 100 && c.aggr_period <= 20000) x.aggr_period = x.aggr_period ? std::min(x.aggr_period, c.aggr_period) : c.aggr_period;
+		if (c.max_requests >= 1 && c.max_requests <= 16000) x.max_requests = std::max(x.max_requests, c.max_requests);
+		if (c.cal_first >= 1136073600) x.cal_first = x.cal_first ? std::min(x.cal_first, c.cal_first) : c.cal_first;
+		if (c.cal_last >= 1136073600) x.cal_last = std::max(x.cal_last, c.cal_last);
+	}
+	return x;
+}
+
+void AsyncSim::ha_final_checks() {
+	// exactly once / no loss is covered by quiesce(); notices: at most one per forwarded sub-request
+	for (auto &r : recs) {
+		size_t budget = 0;
+		for (size_t k = 0; k < r->att.size(); k++) budget += eps.size();
+		if ((size_t)r->notices > budget) K.fail("C15", "too-many-notices", "final", "request #%d produced %d error notices for %zu sub-requests", r->idx, r->notices, budget);
+	}
+	// fan-out: an endpoint without any failure during the life of a request must have been sent that request
+	if (in_quiesce && !backward_jump) {
+		for (auto &r : recs) {
+			if (r->att.empty()) continue;
+			const Attempt &a = r->att.front();
+			for (size_t ei = 0; ei < eps.size(); ei++) {
+				if (ei < r->sub_full.size() && r->sub_full[ei]) continue;
+				if (r->att.size() > 1) continue;
+				if (ha_sent_seq(*r, ei, 0)) continue;
+				std::string why;
+				Attempt w = a; // window until now
+				if (ha_endpoint_clean(*r, w, ei, why) && a.returned && a.state == KSI_ASYNC_STATE_RESPONSE_RECEIVED)
+					K.fail("C15", "request-not-forwarded", "fan-out", "request #%d was never sent to endpoint %zu although that endpoint accepted it and had no failure", r->idx, ei);
+			}
+		}
+	}
+	// consolidation
+	bool all_read = true;
+	int pushes = 0;
+	for (auto &f : frames) if (!f.bad && f.info.has_conf) {
+		pushes++;
+		if (f.conn >= 0 && f.read_seq == 0) all_read = false;
+		if (f.xfer >= 0) {
+			// the body of a transfer is only looked at while the request that opened it is still waiting for its response
+			Xfer &x = *C.xfers[f.xfer];
+			if (!x.reported || rcv_to == 0 || x.done_seq == 0) all_read = false;
+			else if (backward_jump || K.now_ms - x.added_ms >= (int64_t)rcv_to * 1000) all_read = false;
+		}
+	}
+	if (!pushes) return;
+	K.count("probe.ha_conf_pushes_seen", (uint64_t)pushes);
+	// a configuration that travelled in an HTTP body whose transfer's own request had already failed is dropped by design
+	for (auto &f : frames) if (!f.bad && f.info.has_conf && f.xfer >= 0) all_read = all_read && true;
+	if (!in_quiesce || !all_read) { K.count("probe.ha_conf_not_all_processed"); return; }
+	ConfVals want = ha_expected_conf();
+	if (conf_events.empty()) return;
+	const ConfEvent *last = nullptr;
+	for (auto &e : conf_events) if (e.via_callback) last = &e;
+	if (!last) {
+		if (want.any()) K.count("probe.ha_conf_expected_but_none_delivered");
+		return;
+	}
+	K.count("probe.ha_conf_compared");
+	const ConfVals &got = last->cv;
+	auto chk = [&](const char *field, uint64_t g, uint64_t w) {
+		if (g != w) K.fail("C15", "config-consolidation", field, "consolidated %s is %llu, the reference fold over the pushed configurations gives %llu", field, (unsigned long long)g, (unsigned long long)w);
+	};
+	if (!svc_ext) { chk("max-level", got.max_level, want.max_level); chk("aggregation-period", got.aggr_period, want.aggr_period); chk("max-requests", got.max_requests, want.max_requests); }
+	else { chk("max-requests", got.max_requests, want.max_requests); chk("calendar-first-time", got.cal_first, want.cal_first); chk("calendar-last-time", got.cal_last, want.cal_last); }
+}
+
+struct HaEngine : run::Engine {
+	const char *name() const override { return "ha"; }
+	run::Plan generate(uint64_t seed, const std::string &property, int tier) override {
+		Rng g(mix(seed, 0x4a4a));
+		run::Plan p;
+		p.engine = name(); p.property = property; p.seed = seed;
+		gen_async_cfg(g, p, true);
+		p.cfg["pdu_ver"] = 2;
+		if (g.chance(1, 3)) { p.cfg["faults"] = 0; }
+		int neps = (int)p.c("eps", 2);
+		int nops = tier ? (int)g.range(40, 300) : (int)g.range(15, 60);
+		// a third of the plans concentrate on configuration pushes
+		if (g.chance(1, 3)) {
+			p.cfg["faults"] = 0; p.cfg["adv"] = 0; p.cfg["cache"] = 8; p.cfg["snd_to"] = 10; p.cfg["rcv_to"] = 10; p.cfg["con_to"] = 10;
+			p.ops.push_back({"ADD", {0, 0}});
+			p.ops.push_back({"RUN", {}});
+			p.ops.push_back({"RUN", {}});
+			for (int e = 0; e < neps; e++) p.ops.push_back({"SRVREAD", {e}});
+			std::vector<int> order;
+			for (int e = 0; e < neps; e++) order.push_back(e);
+			for (int i = neps - 1; i > 0; i--) std::swap(order[(size_t)i], order[g.below((uint64_t)i + 1)]);
+			for (int e : order) {
+				p.ops.push_back({"PUSHCONF", {e, (int64_t)g.below(6), (int64_t)g.below(6), (int64_t)g.below(6), 0, (int64_t)g.below(1 << 30)}});
+				if (g.chance(1, 2)) { p.ops.push_back({"DELIVER", {(int64_t)g.below(8), 0}}); p.ops.push_back({"RUN", {}}); }
+			}
+			for (int i = 0; i < neps * 2; i++) p.ops.push_back({"DELIVER", {(int64_t)g.below(8), 0}});
+			for (int i = 0; i < neps + 2; i++) p.ops.push_back({"RUN", {}});
+			gen_async_ops(g, p, nops / 3, true, neps);
+			return p;
+		}
+		if (g.chance(1, 5)) p.ops.push_back({"SILENT", {(int64_t)g.below((uint64_t)neps)}});
+		gen_async_ops(g, p, nops, true, neps);
+		return p;
+	}
+	run::RunResult execute(const run::Plan &p, bool trace) override {
+		AsyncSim s(p, true);
+		return s.run(trace);
+	}
+	std::map<std::string, int64_t> neutral_cfg() const override {
+		return {{"svc", 0}, {"transport", 0}, {"cache", 8}, {"maxreq", 1000}, {"snd_to", 10}, {"rcv_to", 10}, {"con_to", 10}, {"mac_alg", 1},
+		        {"keylen", 8}, {"loginlen", 6}, {"conf_cb", 0}, {"epoch", 0}, {"epoch_ms", 0}, {"loglevel", 0}};
+	}
+	std::string nontrivial_rule() const override { return "a run is non-trivial when at least one injected fault or adversarial server action fired while at least one accepted request was outstanding; distinct = distinct event-log hash"; }
+};
+
+static HaEngine g_ha;
+struct RegH { RegH() { run::register_engine(&g_ha); } } g_regh;
 
 } // namespace eng
